@@ -1,6 +1,7 @@
 import MqttVerif.Driver.AllocDrv
 import MqttVerif.Driver.FrameDrv
 import MqttVerif.Driver.ConnDrv
+import MqttVerif.Driver.TablesDrv
 /-!
 `mqttdrv` — reads a trace (produced by the Rust harness running the real code) on stdin,
 replays every call through the Lean model, evaluates the property monitors on the
@@ -16,6 +17,7 @@ inductive Mode
   | alloc (st : AllocSt) (stack : List AllocSt)
   | frame (st : FrameSt)
   | conn (run : ConnRun)
+  | tables (name : String)
 
 partial def loop (h : IO.FS.Stream) (ln : Nat) (m : Mode) (r : Report) : IO Report := do
   let raw ← h.getLine
@@ -34,6 +36,8 @@ partial def loop (h : IO.FS.Stream) (ln : Nat) (m : Mode) (r : Report) : IO Repo
       | none => loop h (ln + 1) .none (r.mdiff "parse" s!"line {ln}: bad trace header `{line}`")
     | _ :: "frame" :: name :: _ =>
       loop h (ln + 1) (.frame { name := name }) { r with traces := r.traces + 1 }
+    | _ :: "tables" :: name :: _ =>
+      loop h (ln + 1) (.tables name) { r with traces := r.traces + 1 }
     | _ => loop h (ln + 1) .none (r.mdiff "parse" s!"line {ln}: bad trace header `{line}`")
   else
     match m with
@@ -61,9 +65,24 @@ partial def loop (h : IO.FS.Stream) (ln : Nat) (m : Mode) (r : Report) : IO Repo
         let (st', r') := frameLine st ln (line.drop 2).toString r
         loop h (ln + 1) (.frame st') r'
       else loop h (ln + 1) m (r.mdiff "parse" s!"line {ln}: unexpected `{line}`")
+    | .tables name =>
+      if line = "END" then loop h (ln + 1) .none r
+      else loop h (ln + 1) m (tablesLine name ln line r)
 
-def main : IO UInt32 := do
+/-- `mqttdrv cells`: print the deviating cells of a `harness tables cells` output -/
+partial def cellsLoop (h : IO.FS.Stream) (n : Nat) : IO Nat := do
+  let raw ← h.getLine
+  if raw.isEmpty then return n
+  match deviationLine raw.trimAscii.toString with
+  | some d => IO.println d; cellsLoop h (n + 1)
+  | none => cellsLoop h n
+
+def main (args : List String) : IO UInt32 := do
   let stdin ← IO.getStdin
+  if args = ["cells"] then
+    let n ← cellsLoop stdin 0
+    IO.println s!"DEVIATIONS {n}"
+    return 0
   let r ← loop stdin 1 .none {}
   r.print
   return (if r.mdiffs + r.viols = 0 then 0 else 1)
